@@ -83,6 +83,8 @@ type Stats struct {
 type ExploreResult struct {
 	Stats      Stats
 	Violations map[string]*Violation // by signature; min-cost instance kept
+	// FeatureRoots: shortest default-environment history per abstract feature (BFS with Feature set)
+	FeatureRoots map[string][]string
 }
 
 type explorer struct {
